@@ -6,7 +6,9 @@ import subprocess
 import sys
 
 ROOT = os.path.dirname(os.path.dirname(os.path.abspath(__file__)))
-RUNNER = os.path.join(ROOT, "runner")
+# VERIF_RUNNER_DIR: a scratch copy of runner/ whose yarel dependency points at a scratch worktree (used only by the
+# mutant-matrix tool so that /repo itself is never modified while other checks run)
+RUNNER = os.environ.get("VERIF_RUNNER_DIR") or os.path.join(ROOT, "runner")
 BIN = os.path.join(RUNNER, "bin")
 TARGET = os.path.join(RUNNER, "target")
 
